@@ -8,6 +8,7 @@
 pub mod apply;
 pub mod envdyn;
 pub mod lines;
+pub mod obs;
 pub mod proj;
 pub mod rngs;
 
